@@ -811,6 +811,10 @@ func generate(r *hx.Rng) []*kase {
 	}
 
 	// two real transports over loopback HTTP
+	for i := 0; i < *nSlow; i++ {
+		local, remote, phases := genSlow(r)
+		add("T", "v2slow", local, remote, fmtConns(phases), "-")
+	}
 	for i := 0; i < *nNet; i++ {
 		codec, local, remote, phases, db := genNet(r)
 		add("T", codec, local, remote, fmtConns(phases), db)
